@@ -17,18 +17,37 @@ import (
 // and the control buffer the slot points at (not from WriteBatch's own bookkeeping, except to tell
 // zero-length packets apart, which carry no pointer).
 type VerifWBEntry struct {
-	Idx    []int          // index in bufs of each iovec, -1 if it is not one of the caller's buffers
-	Lens   []int          // iovec lengths
+	Idx    []int          // per iovec: the index i with iovec == bufs[i] exactly (same base, same length); -1 if there is none
 	Seg    int            // gso_size of the UDP_SEGMENT cmsg; -1 no control data; -2 malformed control data
 	Addr   netip.AddrPort // decoded msg_name
 	AddrOK bool
 }
 
+// VerifWBCall is one sendFn invocation on w.msgs[Start:Start+N]. Updates lists the slots in that range whose
+// decoded content differs from what the same slot held the last time it was offered (every slot is decoded at
+// every call; unchanged ones are not repeated).
 type VerifWBCall struct {
 	Start, N int
-	Entries  []VerifWBEntry
+	Updates  []VerifWBUpdate
 	Sent     int
 	Errno    int
+}
+
+type VerifWBUpdate struct {
+	Slot  int
+	Entry VerifWBEntry
+}
+
+func verifWBSame(a, b VerifWBEntry) bool {
+	if a.Seg != b.Seg || a.Addr != b.Addr || a.AddrOK != b.AddrOK || len(a.Idx) != len(b.Idx) {
+		return false
+	}
+	for i := range a.Idx {
+		if a.Idx[i] != b.Idx[i] {
+			return false
+		}
+	}
+	return true
 }
 
 // VerifWBOutcome is one scripted sendmmsg outcome; Sent is clamped to the number of entries offered.
@@ -68,7 +87,7 @@ func VerifWriteBatch(isV4, gso bool, maxSegs, capN int, bufs [][]byte, addrs []n
 			for k, iov := range iovs {
 				idx := -1
 				if iov.Len > 0 && iov.Base != nil {
-					if j, ok := byPtr[iov.Base]; ok {
+					if j, ok := byPtr[iov.Base]; ok && int(iov.Len) == len(bufs[j]) {
 						idx = j
 					}
 				} else if iov.Len == 0 {
@@ -80,7 +99,6 @@ func VerifWriteBatch(isV4, gso bool, maxSegs, capN int, bufs [][]byte, addrs []n
 					}
 				}
 				ve.Idx = append(ve.Idx, idx)
-				ve.Lens = append(ve.Lens, int(iov.Len))
 			}
 		}
 		ve.Seg = -1
@@ -109,6 +127,7 @@ func VerifWriteBatch(isV4, gso bool, maxSegs, capN int, bufs [][]byte, addrs []n
 		return ve
 	}
 
+	last := map[int]VerifWBEntry{}
 	w.sendFn = func(start, n int) (int, error) {
 		k := len(res.Calls)
 		if k > 100000 {
@@ -124,7 +143,11 @@ func VerifWriteBatch(isV4, gso bool, maxSegs, capN int, bufs [][]byte, addrs []n
 		}
 		call := VerifWBCall{Start: start, N: n, Sent: sent, Errno: item.Errno}
 		for e := start; e < start+n && e < len(w.msgs); e++ {
-			call.Entries = append(call.Entries, decode(e))
+			ve := decode(e)
+			if old, ok := last[e]; !ok || !verifWBSame(old, ve) {
+				call.Updates = append(call.Updates, VerifWBUpdate{Slot: e, Entry: ve})
+				last[e] = ve
+			}
 		}
 		res.Calls = append(res.Calls, call)
 		if item.Errno != 0 {
